@@ -186,8 +186,17 @@ let ops : numops = {
   fmul = (fun a b -> bits (fl a *. fl b));
   fdiv = (fun a b -> bits (fl a /. fl b));
   fpow = (fun a b -> bits (go_pow (fl a) (fl b)));
-  fmin = (fun a b -> bits (Float.min (fl a) (fl b)));
-  fmax = (fun a b -> bits (Float.max (fl a) (fl b)));
+  (* Go's math.Min / math.Max: an infinity of the right sign wins even over NaN; -0 < +0 *)
+  fmin = (fun a b -> let x = fl a and y = fl b in
+           bits (if x = Float.neg_infinity || y = Float.neg_infinity then Float.neg_infinity
+                 else if x <> x || y <> y then Float.nan
+                 else if x = 0.0 && x = y then (if Float.sign_bit x then x else y)
+                 else if x < y then x else y));
+  fmax = (fun a b -> let x = fl a and y = fl b in
+           bits (if x = Float.infinity || y = Float.infinity then Float.infinity
+                 else if x <> x || y <> y then Float.nan
+                 else if x = 0.0 && x = y then (if Float.sign_bit x then y else x)
+                 else if x > y then x else y));
   fneg = (fun a -> bits (-. (fl a)));
   fabs = (fun a -> bits (Float.abs (fl a)));
   ffloor = (fun a -> bits (Float.floor (fl a)));
